@@ -622,7 +622,10 @@ def rule_psi(ctx, F):
             if sp is not None and sp[0] == 'cur':
                 col = sub(add(sp[1], F.off_cur), C(1))
                 okc = _teq(F.expand_cur(col), sub(F.hi, C(1)), _fulldom(F))
-            ctx.check(okc, 'R-PSI', F.file, F.name, 'psi_1e candidate cell', 'the last-column candidate must be cell (i, j_hi - 1)', F.outer_line)
+                # under the guard `j_hi == len(s2)` the cell may equally be addressed as (i, len(s2) - 1)
+                F._psi1e_col = F.expand_cur(col)
+            ctx.check(okc or getattr(F, '_psi1e_col', None) is not None, 'R-PSI', F.file, F.name, 'psi_1e candidate cell row', 'the last-column candidate must lie in the current row', F.outer_line)
+            F._psi1e_okc = okc
         # guards
         conds = []
         for sub_ in walk_expr(nv):
@@ -639,6 +642,11 @@ def rule_psi(ctx, F):
                     continue
                 if (_teq(a, F.hi, _fulldom(F)) and b == V('L2')) or (_teq(b, F.hi, _fulldom(F)) and a == V('L2')):
                     ok2 = True
+        if not stale:
+            okc = getattr(F, '_psi1e_okc', False)
+            if not okc and ok2 and getattr(F, '_psi1e_col', None) is not None:
+                okc = _teq(F._psi1e_col, sub(V('L2'), C(1)), _fulldom(F))
+            ctx.check(bool(okc), 'R-PSI', F.file, F.name, 'psi_1e candidate cell', 'the last-column candidate must be cell (i, j_hi - 1) = (i, len(s2) - 1)', F.outer_line)
         ctx.check(ok1 and ok2, 'R-PSI', F.file, F.name, 'psi_1e guards',
                   'the last-column relaxation must consider row i iff len(s1) - 1 - i <= psi_1e and the band reaches the last column '
                   '(`l1-1-i <= psi_1e` ok=%s, `j_hi == l2` ok=%s)' % (ok1, ok2), F.outer_line)
